@@ -4,7 +4,7 @@
 From Coq Require Import ZArith Bool List Lia.
 From AxV Require Import Bits Outcome Codes Iced State Rt Mem Trace BitsP ByteStore MemP RegFile RegsP ISA CodeSem ReadonlyTac
   OperandP FlagsP CfP MovP RmP AluP AluRmP Alu32P MovxP Alu16P Alu8P DivP Div32P MulP.
-From AxG Require Import Flags Regs Operand Helpers I_div.
+From AxG Require Import Flags Regs Operand Helpers I_div I_idiv.
 Local Open Scope Z_scope.
 Ltac Zify.zify_post_hook ::= Z.div_mod_to_equations.
 
@@ -152,3 +152,269 @@ Section Div8.
     - destruct (Z.ltb_spec (2 ^ 8 - 1) (D / d)); [reflexivity|lia].
   Qed.
 End Div8.
+
+(* ---- IDIV r/m16: DX:AX / r/m16, signed (Div32P.v's IDIV r/m32 at half the width) ---- *)
+Lemma sem_enc_i64 v : - 2 ^ 63 <= v < 2 ^ 63 -> Bits.sem I64 (enc I64 v) = v.
+Proof.
+  intros H. unfold Bits.sem, enc, modulus; cbn [signed width]. change (2 ^ (64 - 1)) with (2 ^ 63).
+  change (2 ^ 63) with 9223372036854775808 in *.
+  change (2 ^ 64) with 18446744073709551616.
+  destruct (Z.ltb_spec (v mod 18446744073709551616) 9223372036854775808); lia.
+Qed.
+
+
+Lemma src16_pattern d : 0 <= d < 2 ^ 16 ->
+  cast I16 I32 (cast U16 I16 (cast U64 U16 d)) = sgn 16 d mod 2 ^ 32.
+Proof.
+  intros H. unfold cast, Bits.sem, enc, modulus, sgn; cbn [signed width].
+  change (2 ^ (16 - 1)) with 32768. change (2 ^ 16) with 65536 in *. change (2 ^ 32) with 4294967296.
+  repeat match goal with |- context [if ?b then _ else _] => destruct b eqn:? end; lia.
+Qed.
+
+Lemma sem_i64_of_i32 v : - 2 ^ 31 <= v < 2 ^ 31 -> Bits.sem I64 (cast I32 I64 (v mod 2 ^ 32)) = v.
+Proof.
+  intros H. unfold cast, Bits.sem, enc, modulus; cbn [signed width].
+  change (2 ^ (32 - 1)) with 2147483648. change (2 ^ (64 - 1)) with 9223372036854775808.
+  change (2 ^ 31) with 2147483648 in *. change (2 ^ 32) with 4294967296.
+  change (2 ^ 64) with 18446744073709551616.
+  repeat match goal with |- context [if ?b then _ else _] => destruct b eqn:? end; lia.
+Qed.
+
+Section Idiv16.
+  Variables (c : cfg) (i : instr) (s : mstate).
+  Hypothesis Hwf : wf_regs s.
+  Hypothesis HI : Inv (mem s).
+  Hypothesis Hn : i_op_count i = 1.
+  Hypothesis Hs : rm16_shape i 0.
+
+  Theorem idiv_rm16_refines :
+    i_code i = C_Idiv_rm16 ->
+    match isa_exec (SIdiv 16) i s with
+    | IDone s' _ => instr_idiv_rm16 c i s = (Ok tt, s')
+    | IFault FDivide => instr_idiv_rm16 c i s = (Err EDivZero, s)
+    | IFault FMem => exists e, instr_idiv_rm16 c i s = (Err e, s)
+    | IFault _ => False
+    end.
+  Proof.
+    intros Ec. unfold instr_idiv_rm16. rewrite Ec.
+    rewrite (bind_ok _ _ _ _ _ (dbg_code_ok c s _ eq_refl)).
+    rewrite <- (bind_assoc (instruction_operand c i 0)). fold (read_rm16 c i 0).
+    cbn [isa_exec]. unfold exec_div.
+    pose proof (read_rm16_spec c i s 0 Hwf HI ltac:(lia) Hs) as RD.
+    destruct (read_op i 0 16 s) as [d|]; [destruct RD as [RD Hd]|destruct RD as [e RD]];
+      [|eexists; rewrite (bind_err _ _ _ _ _ RD); reflexivity].
+    rewrite (bind_ok _ _ _ _ _ RD). cbv beta zeta.
+    rewrite (src16_pattern d Hd).
+    set (sd := sgn 16 d).
+    assert (Hsd : - 2 ^ 15 <= sd < 2 ^ 15).
+    { unfold sd, sgn. change (2 ^ (16 - 1)) with (2 ^ 15). change (2 ^ 15) with 32768. change (2 ^ 16) with 65536 in *.
+      destruct (Z.ltb_spec d 32768); lia. }
+    assert (Zd : (sd mod 2 ^ 32 =? 0) = (d =? 0)).
+    { unfold sd, sgn. change (2 ^ (16 - 1)) with 32768. change (2 ^ 16) with 65536 in *. change (2 ^ 32) with 4294967296.
+      destruct (Z.ltb_spec d 32768); destruct (Z.eqb_spec d 0);
+        match goal with |- (?x =? 0) = _ => destruct (Z.eqb_spec x 0) end; try reflexivity; lia. }
+    rewrite Zd. destruct (Z.eqb_spec d 0) as [Z|NZ]; [reflexivity|].
+    assert (Nsd : sd <> 0).
+    { unfold sd, sgn. change (2 ^ (16 - 1)) with 32768. change (2 ^ 16) with 65536 in *. destruct (Z.ltb_spec d 32768); lia. }
+    rewrite (bind_ok _ _ _ _ _ (reg_read_16_ok c AX s Hwf eq_refl)).
+    rewrite (bind_ok _ _ _ _ _ (reg_read_16_ok c DX s Hwf eq_refl)).
+    change (acc 16) with AX. change (hi_reg 16) with DX. change (16 =? 8) with false. cbv iota.
+    set (lo := rf_read (regs s) AX). set (hi := rf_read (regs s) DX).
+    assert (Hlo : 0 <= lo < 2 ^ 16) by (apply rf_read_range16; reflexivity).
+    assert (Hhi : 0 <= hi < 2 ^ 16) by (apply rf_read_range16; reflexivity).
+    rewrite (um_cast U32 16 ltac:(lia) eq_refl lo Hlo), (um_cast U32 16 ltac:(lia) eq_refl hi Hhi).
+    assert (SH : shl_raw U32 hi 16 = hi * 2 ^ 16).
+    { unfold shl_raw. apply enc_small. unfold modulus; cbn [width].
+      change (2 ^ 32) with 4294967296. change (2 ^ 16) with 65536 in *. lia. }
+    rewrite SH. rewrite (lor_add_shift lo hi 16) by lia.
+    set (D := lo + hi * 2 ^ 16). replace (hi * 2 ^ 16 + lo) with D by (unfold D; ring).
+    assert (HD : 0 <= D < 2 ^ 32).
+    { unfold D. change (2 ^ 32) with 4294967296. change (2 ^ 16) with 65536 in *. lia. }
+    change (2 * 16) with 32.
+    set (SD := sgn 32 D).
+    assert (HSD : - 2 ^ 31 <= SD < 2 ^ 31).
+    { unfold SD, sgn. change (2 ^ (32 - 1)) with (2 ^ 31). destruct (Z.ltb_spec D (2 ^ 31));
+      change (2 ^ 31) with 2147483648 in *; change (2 ^ 32) with 4294967296 in *; lia. }
+    assert (CD : cast U32 I32 D = SD mod 2 ^ 32).
+    { unfold cast, Bits.sem, enc, modulus, SD, sgn; cbn [signed width]. change (2 ^ (32 - 1)) with 2147483648.
+      change (2 ^ 32) with 4294967296 in *.
+      destruct (Z.ltb_spec D 2147483648); lia. }
+    rewrite CD.
+    set (A := cast I32 I64 (SD mod 2 ^ 32)). set (B := cast I32 I64 (sd mod 2 ^ 32)).
+    assert (SA : Bits.sem I64 A = SD) by (apply sem_i64_of_i32; exact HSD).
+    assert (SB : Bits.sem I64 B = sd).
+    { apply sem_i64_of_i32. change (2 ^ 15) with 32768 in Hsd. change (2 ^ 31) with 2147483648. lia. }
+    assert (NB : (B =? 0) = false).
+    { destruct (Z.eqb_spec B 0) as [E|]; [|reflexivity]. exfalso. apply Nsd. rewrite <- SB. rewrite E. reflexivity. }
+    assert (Hq : - 2 ^ 63 <= Z.quot SD sd < 2 ^ 63).
+    { pose proof (Z.quot_abs SD sd ltac:(lia)) as QA.
+      assert (B1 : Z.abs (Z.quot SD sd) <= Z.abs SD).
+      { rewrite <- QA. rewrite Z.quot_div_nonneg by lia. apply Z.div_le_upper_bound; [lia|]. pose proof (Z.abs_nonneg SD). nia. }
+      change (2 ^ 63) with 9223372036854775808. change (2 ^ 31) with 2147483648 in *. lia. }
+    assert (Hr : - 2 ^ 63 <= Z.rem SD sd < 2 ^ 63).
+    { pose proof (Z.rem_bound_abs SD sd ltac:(lia)) as RB. change (2 ^ 63) with 9223372036854775808.
+      change (2 ^ 15) with 32768 in *. lia. }
+    assert (Q : div_chk I64 A B = Ok (enc I64 (Z.quot SD sd))).
+    { unfold div_chk. rewrite NB. rewrite SA, SB.
+      destruct (Z.eqb_spec SD (- 2 ^ (width I64 - 1))) as [E|_].
+      - exfalso. cbn [width] in E. change (2 ^ (64 - 1)) with 9223372036854775808 in E.
+        change (2 ^ 31) with 2147483648 in *. lia.
+      - rewrite andb_false_r. cbn [andb]. unfold wdiv. rewrite SA, SB. reflexivity. }
+    assert (R : rem_chk I64 A B = Ok (enc I64 (Z.rem SD sd))).
+    { unfold rem_chk. rewrite NB. rewrite SA, SB.
+      destruct (Z.eqb_spec SD (- 2 ^ (width I64 - 1))) as [E|_].
+      - exfalso. cbn [width] in E. change (2 ^ (64 - 1)) with 9223372036854775808 in E.
+        change (2 ^ 31) with 2147483648 in *. lia.
+      - rewrite andb_false_r. cbn [andb]. unfold wrem. rewrite SA, SB. reflexivity. }
+    rewrite Q, R.
+    rewrite (bind_ok _ _ _ _ _ (eq_refl : lift (Ok (enc I64 (Z.quot SD sd))) s = _)).
+    rewrite (bind_ok _ _ _ _ _ (eq_refl : lift (Ok (enc I64 (Z.rem SD sd))) s = _)).
+    cbv beta iota. unfold lt. rewrite !sem_enc_i64 by assumption.
+    assert (K1 : Bits.sem I64 (cast I16 I64 (2 ^ 15)) = - 2 ^ 15) by (vm_compute; reflexivity).
+    assert (K2 : Bits.sem I64 (cast I16 I64 (2 ^ 15 - 1)) = 2 ^ 15 - 1) by (vm_compute; reflexivity).
+    rewrite K1, K2.
+    assert (W : forall v, - 2 ^ 63 <= v < 2 ^ 63 -> cast U16 U64 (cast I64 U16 (enc I64 v)) = v mod 2 ^ 16).
+    { intros v Hv. assert (E : cast I64 U16 (enc I64 v) = v mod 2 ^ 16) by (unfold cast; rewrite sem_enc_i64 by exact Hv; reflexivity).
+      rewrite E. apply cast_u16_u64_id. apply Z.mod_pos_bound. reflexivity. }
+    rewrite !W by assumption.
+    unfold fits_signed. change (2 ^ (16 - 1)) with (2 ^ 15).
+    fold sd. fold SD.
+    destruct (Z.ltb_spec (Z.quot SD sd) (- 2 ^ 15)) as [L1|G1]; destruct (Z.ltb_spec (2 ^ 15 - 1) (Z.quot SD sd)) as [L2|G2];
+      destruct (Z.leb_spec (- 2 ^ 15) (Z.quot SD sd)); destruct (Z.ltb_spec (Z.quot SD sd) (2 ^ 15)); try lia;
+      cbn [orb andb negb]; try reflexivity.
+    assert (R1 : 0 <= Z.quot SD sd mod 2 ^ 16 < 2 ^ 16) by (apply Z.mod_pos_bound; reflexivity).
+    assert (R2 : 0 <= Z.rem SD sd mod 2 ^ 16 < 2 ^ 16) by (apply Z.mod_pos_bound; reflexivity).
+    rewrite (bind_ok _ _ _ _ _ (reg_write_16_ok c AX _ s Hwf eq_refl R1)).
+    rewrite (bind_ok _ _ _ _ _ (reg_write_16_ok c DX _ _ (wf_after_acc16 s Hwf _ R1) eq_refl R2)).
+    reflexivity.
+  Qed.
+End Idiv16.
+
+(* ---- IDIV r/m8: AX / r/m8, signed -> AL (quotient), AH (remainder) ---- *)
+Lemma sem_enc_i32 v : - 2 ^ 31 <= v < 2 ^ 31 -> Bits.sem I32 (enc I32 v) = v.
+Proof.
+  intros H. unfold Bits.sem, enc, modulus; cbn [signed width]. change (2 ^ (32 - 1)) with (2 ^ 31).
+  change (2 ^ 31) with 2147483648 in *. change (2 ^ 32) with 4294967296.
+  destruct (Z.ltb_spec (v mod 4294967296) 2147483648); lia.
+Qed.
+
+Lemma src8_pattern d : 0 <= d < 2 ^ 8 ->
+  cast I8 I16 (cast U8 I8 (cast U64 U8 d)) = sgn 8 d mod 2 ^ 16.
+Proof.
+  intros H. unfold cast, Bits.sem, enc, modulus, sgn; cbn [signed width].
+  change (2 ^ (8 - 1)) with 128. change (2 ^ 8) with 256 in *. change (2 ^ 16) with 65536.
+  repeat match goal with |- context [if ?b then _ else _] => destruct b eqn:? end; lia.
+Qed.
+
+Lemma sem_i32_of_i16 v : - 2 ^ 15 <= v < 2 ^ 15 -> Bits.sem I32 (cast I16 I32 (v mod 2 ^ 16)) = v.
+Proof.
+  intros H. unfold cast, Bits.sem, enc, modulus; cbn [signed width].
+  change (2 ^ (16 - 1)) with 32768. change (2 ^ (32 - 1)) with 2147483648.
+  change (2 ^ 15) with 32768 in *. change (2 ^ 16) with 65536. change (2 ^ 32) with 4294967296.
+  repeat match goal with |- context [if ?b then _ else _] => destruct b eqn:? end; lia.
+Qed.
+
+Section Idiv8.
+  Variables (c : cfg) (i : instr) (s : mstate).
+  Hypothesis Hwf : wf_regs s.
+  Hypothesis HI : Inv (mem s).
+  Hypothesis Hn : i_op_count i = 1.
+  Hypothesis Hs : rm8_shape i 0.
+
+  Theorem idiv_rm8_refines :
+    i_code i = C_Idiv_rm8 ->
+    match isa_exec (SIdiv 8) i s with
+    | IDone s' _ => instr_idiv_rm8 c i s = (Ok tt, s')
+    | IFault FDivide => instr_idiv_rm8 c i s = (Err EDivZero, s)
+    | IFault FMem => exists e, instr_idiv_rm8 c i s = (Err e, s)
+    | IFault _ => False
+    end.
+  Proof.
+    intros Ec. unfold instr_idiv_rm8. rewrite Ec.
+    rewrite (bind_ok _ _ _ _ _ (dbg_code_ok c s _ eq_refl)).
+    rewrite (bind_ok _ _ _ _ _ (reg_read_16_ok c AX s Hwf eq_refl)). cbv zeta.
+    rewrite <- (bind_assoc (instruction_operand c i 0)). fold (read_rm8 c i 0).
+    cbn [isa_exec]. unfold exec_div.
+    pose proof (read_rm8_spec c i s 0 Hwf HI ltac:(lia) Hs) as RD.
+    destruct (read_op i 0 8 s) as [d|]; [destruct RD as [RD Hd]|destruct RD as [e RD]];
+      [|eexists; rewrite (bind_err _ _ _ _ _ RD); reflexivity].
+    rewrite (bind_ok _ _ _ _ _ RD). cbv beta zeta.
+    rewrite (src8_pattern d Hd).
+    set (sd := sgn 8 d).
+    assert (Hsd : - 2 ^ 7 <= sd < 2 ^ 7).
+    { unfold sd, sgn. change (2 ^ (8 - 1)) with (2 ^ 7). change (2 ^ 7) with 128. change (2 ^ 8) with 256 in *.
+      destruct (Z.ltb_spec d 128); lia. }
+    assert (Zd : (sd mod 2 ^ 16 =? 0) = (d =? 0)).
+    { unfold sd, sgn. change (2 ^ (8 - 1)) with 128. change (2 ^ 8) with 256 in *. change (2 ^ 16) with 65536.
+      destruct (Z.ltb_spec d 128); destruct (Z.eqb_spec d 0);
+        match goal with |- (?x =? 0) = _ => destruct (Z.eqb_spec x 0) end; try reflexivity; lia. }
+    rewrite Zd. destruct (Z.eqb_spec d 0) as [Zr|NZ]; [reflexivity|].
+    assert (Nsd : sd <> 0).
+    { unfold sd, sgn. change (2 ^ (8 - 1)) with 128. change (2 ^ 8) with 256 in *. destruct (Z.ltb_spec d 128); lia. }
+    change (acc 8) with AL. change (8 =? 8) with true. cbv iota.
+    set (lo := rf_read (regs s) AL). set (hi := rf_read (regs s) AH).
+    assert (Hlo : 0 <= lo < 2 ^ 8) by (apply rf_read_range8; reflexivity).
+    assert (Hhi : 0 <= hi < 2 ^ 8) by (apply rf_read_range8; reflexivity).
+    rewrite (ax_is_ah_al (regs s)). fold lo hi.
+    set (D := hi * 2 ^ 8 + lo).
+    assert (HD : 0 <= D < 2 ^ 16).
+    { unfold D. change (2 ^ 16) with 65536. change (2 ^ 8) with 256 in *. lia. }
+    change (2 * 8) with 16.
+    set (SD := sgn 16 D).
+    assert (HSD : - 2 ^ 15 <= SD < 2 ^ 15).
+    { unfold SD, sgn. change (2 ^ (16 - 1)) with (2 ^ 15). destruct (Z.ltb_spec D (2 ^ 15));
+      change (2 ^ 15) with 32768 in *; change (2 ^ 16) with 65536 in *; lia. }
+    assert (CD : cast U64 I16 D = SD mod 2 ^ 16).
+    { unfold cast, Bits.sem, enc, modulus, SD, sgn; cbn [signed width]. change (2 ^ (16 - 1)) with 32768.
+      change (2 ^ 16) with 65536 in *.
+      destruct (Z.ltb_spec D 32768); lia. }
+    rewrite CD.
+    set (A := cast I16 I32 (SD mod 2 ^ 16)). set (B := cast I16 I32 (sd mod 2 ^ 16)).
+    assert (SA : Bits.sem I32 A = SD) by (apply sem_i32_of_i16; exact HSD).
+    assert (SB : Bits.sem I32 B = sd).
+    { apply sem_i32_of_i16. change (2 ^ 7) with 128 in Hsd. change (2 ^ 15) with 32768. lia. }
+    assert (NB : (B =? 0) = false).
+    { destruct (Z.eqb_spec B 0) as [E|]; [|reflexivity]. exfalso. apply Nsd. rewrite <- SB. rewrite E. reflexivity. }
+    assert (Hq : - 2 ^ 31 <= Z.quot SD sd < 2 ^ 31).
+    { pose proof (Z.quot_abs SD sd ltac:(lia)) as QA.
+      assert (B1 : Z.abs (Z.quot SD sd) <= Z.abs SD).
+      { rewrite <- QA. rewrite Z.quot_div_nonneg by lia. apply Z.div_le_upper_bound; [lia|]. pose proof (Z.abs_nonneg SD). nia. }
+      change (2 ^ 31) with 2147483648. change (2 ^ 15) with 32768 in *. lia. }
+    assert (Hr : - 2 ^ 31 <= Z.rem SD sd < 2 ^ 31).
+    { pose proof (Z.rem_bound_abs SD sd ltac:(lia)) as RB. change (2 ^ 31) with 2147483648.
+      change (2 ^ 7) with 128 in *. lia. }
+    assert (Q : div_chk I32 A B = Ok (enc I32 (Z.quot SD sd))).
+    { unfold div_chk. rewrite NB. rewrite SA, SB.
+      destruct (Z.eqb_spec SD (- 2 ^ (width I32 - 1))) as [E|_].
+      - exfalso. cbn [width] in E. change (2 ^ (32 - 1)) with 2147483648 in E.
+        change (2 ^ 15) with 32768 in *. lia.
+      - rewrite andb_false_r. cbn [andb]. unfold wdiv. rewrite SA, SB. reflexivity. }
+    assert (R : rem_chk I32 A B = Ok (enc I32 (Z.rem SD sd))).
+    { unfold rem_chk. rewrite NB. rewrite SA, SB.
+      destruct (Z.eqb_spec SD (- 2 ^ (width I32 - 1))) as [E|_].
+      - exfalso. cbn [width] in E. change (2 ^ (32 - 1)) with 2147483648 in E.
+        change (2 ^ 15) with 32768 in *. lia.
+      - rewrite andb_false_r. cbn [andb]. unfold wrem. rewrite SA, SB. reflexivity. }
+    rewrite Q, R.
+    rewrite (bind_ok _ _ _ _ _ (eq_refl : lift (Ok (enc I32 (Z.quot SD sd))) s = _)).
+    rewrite (bind_ok _ _ _ _ _ (eq_refl : lift (Ok (enc I32 (Z.rem SD sd))) s = _)).
+    cbv beta iota. unfold lt. rewrite !sem_enc_i32 by assumption.
+    assert (K1 : Bits.sem I32 (cast I8 I32 (2 ^ 7)) = - 2 ^ 7) by (vm_compute; reflexivity).
+    assert (K2 : Bits.sem I32 (cast I8 I32 (2 ^ 7 - 1)) = 2 ^ 7 - 1) by (vm_compute; reflexivity).
+    rewrite K1, K2.
+    assert (W : forall v, - 2 ^ 31 <= v < 2 ^ 31 -> cast U8 U64 (cast I32 U8 (enc I32 v)) = v mod 2 ^ 8).
+    { intros v Hv. assert (E : cast I32 U8 (enc I32 v) = v mod 2 ^ 8) by (unfold cast; rewrite sem_enc_i32 by exact Hv; reflexivity).
+      rewrite E. apply cast_u8_u64_id. apply Z.mod_pos_bound. reflexivity. }
+    rewrite !W by assumption.
+    unfold fits_signed. change (2 ^ (8 - 1)) with (2 ^ 7).
+    fold sd. fold SD.
+    destruct (Z.ltb_spec (Z.quot SD sd) (- 2 ^ 7)) as [L1|G1]; destruct (Z.ltb_spec (2 ^ 7 - 1) (Z.quot SD sd)) as [L2|G2];
+      destruct (Z.leb_spec (- 2 ^ 7) (Z.quot SD sd)); destruct (Z.ltb_spec (Z.quot SD sd) (2 ^ 7)); try lia;
+      cbn [orb andb negb]; try reflexivity.
+    assert (R1 : 0 <= Z.quot SD sd mod 2 ^ 8 < 2 ^ 8) by (apply Z.mod_pos_bound; reflexivity).
+    assert (R2 : 0 <= Z.rem SD sd mod 2 ^ 8 < 2 ^ 8) by (apply Z.mod_pos_bound; reflexivity).
+    rewrite (bind_ok _ _ _ _ _ (reg_write_8_ok c AL _ s Hwf eq_refl R1)).
+    rewrite (bind_ok _ _ _ _ _ (reg_write_8_ok c AH _ _ (wf_after_al s _ Hwf R1) eq_refl R2)).
+    reflexivity.
+  Qed.
+End Idiv8.
